@@ -764,6 +764,8 @@ fn logical_dump_server(port: u16) -> Result<String, String> {
         let v = tcp_resp(port, &["GRAPH.QUERY", "default", q])?;
         let rows = match &v {
             RespValue::Array(rows) if !rows.is_empty() => rows[1..].to_vec(),
+            // a reply without even the header row: no rows (the shape itself is judged on the statements)
+            RespValue::Array(_) => vec![],
             RespValue::Error(e) => return Err(format!("dump query refused: {e}")),
             o => return Err(format!("dump query reply {:?}", o)),
         };
